@@ -7,11 +7,14 @@
 //! trusted: //@oneof: the claim-deadline statement is accepted in two shapes, `E.iter().map(|h| V).min()` (R6 loop, the shape in the tree) and `E.iter().min()/.max().map(|h| V)` (an element picked by the element type's Ord, which is not modelled: iter_pick_by_ord returns some element of E); exactly the shape found is verified against the same contract
 //! trusted: R15 (deep slice): inbound_payment::verify decrypts and authenticates the payment secret (ChaCha20/HMAC, outside the verifier); the unit extracts its two final tests (total_msat against the amount and the expiry against the highest seen block time) verbatim as a function of the decoded (min_amt_msat, expiry); decoding those two numbers from the decrypted bytes is the subject of unit u04d (the real decoding statements against the byte layout) together with the Kani harness h_info_bytes (construct_info_bytes is the inverse of that layout); FinalOnionHopData skeleton
 //! trusted: R15: claim_payment_internal: the unit extracts the amount re-check (the loop over the parts and the two abort tests, conditions captured) verbatim as a function of the part list; begin_claiming_payment before it and the per-channel claims after it are dropped and not claimed; R6: `for htlc in sources.iter()` becomes an index loop
+//! trusted: R15 (deep slice): do_chain_event: the statement that decides whether an accumulating trampoline payment has reached an on-chain deadline (R6: any/all loop, the quantifier in the source selects the answer; each part is tested by the extracted MppPart::check_onchain_timeout)
 //! trusted: R15 (deep slice): ClaimablePayments::begin_claiming_payment: the amount_msat expression of the ClaimingPayment it records (R6: `.iter().map(|s| V).sum()` as an index loop with an overflow obligation)
 //! trusted: R15 (deep slice): ClaimablePayments::begin_claiming_payment: the custom-TLV refusal test verbatim (the `.iter().any(|(typ, _)| P)` becomes an index loop carrying P, R6)
 //! assume: representation invariant of an accumulating payment: the intended sum already held is < MAX_VALUE_MSAT, every part's intended value < MAX_VALUE_MSAT, the sum of received values fits u64; cltv_expiry >= HTLC_FAIL_BACK_BUFFER (implied by acceptance)
 //! trusted: assume_specification for core::cmp::max / core::cmp::min (std definitions): present in every unit so that a change that introduces them is verified instead of being rejected by the tool
 use vstd::prelude::*;
+// R6: the quantifier of `E.iter().any(..)` / `E.iter().all(..)` selects which of the two accumulated answers is the result
+macro_rules! iter_quantifier { (any, $some:expr, $every:expr) => { $some }; (all, $some:expr, $every:expr) => { $every }; }
 verus! {
 use vstd::std_specs::cmp::*;
 use core::cmp;
@@ -343,6 +346,34 @@ pub proof fn lemma_min_expiry(s: Seq<ClaimableHTLC>)
     proof { lemma_min_expiry(htlcs@); }
 //@end
 
+// ---- new blocks: a trampoline accumulation is given up as soon as ANY of its parts reaches its on-chain deadline (R15 slice of do_chain_event) ----
+pub struct TrampolineAccumulation { pub htlcs: Vec<MppPart> }
+//@extract lightning/src/ln/channelmanager.rs :: impl ChannelManager :: fn do_chain_event
+//@slice R15
+    let htlc_timed_out = payment.htlcs.iter().$q:ident(|htlc| $p:seq); if htlc_timed_out { let previous_hop_data
+//@with
+    fn accumulation_reached_an_onchain_deadline(payment: &TrampolineAccumulation, height: u32) -> bool {
+        // R6: `E.iter().any(|p| P)` / `.all(|p| P)` as an index loop carrying P verbatim
+        let mut __some = false; let mut __every = true; let mut __i: usize = 0;
+        while __i < payment.htlcs.len()
+            invariant __i <= payment.htlcs@.len(), forall|k: int| 0 <= k < payment.htlcs@.len() ==> (#[trigger] payment.htlcs@[k]).cltv_expiry >= HTLC_FAIL_BACK_BUFFER,
+                __some == (exists|k: int| 0 <= k < __i && height as int >= (#[trigger] payment.htlcs@[k]).cltv_expiry as int - HTLC_FAIL_BACK_BUFFER as int),
+                __every == (forall|k: int| 0 <= k < __i ==> height as int >= (#[trigger] payment.htlcs@[k]).cltv_expiry as int - HTLC_FAIL_BACK_BUFFER as int),
+            decreases payment.htlcs@.len() - __i
+        { let htlc = &payment.htlcs[__i]; let __b: bool = $p; if __b { __some = true; } else { __every = false; } __i = __i + 1; }
+        let htlc_timed_out = iter_quantifier!($q, __some, __every);
+        htlc_timed_out
+    }
+//@ret r
+//@requires
+    forall|k: int| 0 <= k < payment.htlcs@.len() ==> (#[trigger] payment.htlcs@[k]).cltv_expiry >= HTLC_FAIL_BACK_BUFFER,
+//@ensures P C04,C08 a-trampoline-accumulation-is-failed-back-as-soon-as-any-of-its-parts-reaches-its-on-chain-deadline
+    r == (exists|k: int| 0 <= k < payment.htlcs@.len() && height as int >= (#[trigger] payment.htlcs@[k]).cltv_expiry as int - HTLC_FAIL_BACK_BUFFER as int),
+//@mutant accumulation_kept_until_every_part_has_expired
+    payment.htlcs.iter().any(|htlc| htlc.check_onchain_timeout(height));
+//@with
+    payment.htlcs.iter().all(|htlc| htlc.check_onchain_timeout(height));
+//@end
 // ---- the amount PaymentClaimed reports: the sum of what the parts actually delivered (R15 slice of ClaimablePayments::begin_claiming_payment) ----
 pub struct ClaimablePaymentStub { pub htlcs: Vec<ClaimableHTLC> }
 pub open spec fn parts_of_claimable(s: Seq<ClaimableHTLC>) -> Seq<MppPart> { Seq::new(s.len(), |k: int| s[k].mpp_part) }
